@@ -246,6 +246,9 @@ func main() {
 	res.Counters["children-detached"] = st.Detached
 	res.Counters["recycled-handles"] = st.Recycled
 	res.Counters["max-open-queries"] = st.MaxOpenQ
+	res.Counters["max-alive-entities"] = st.MaxAlive
+	res.Counters["max-tables"] = st.MaxTables
+	res.Counters["max-table-size"] = st.MaxTableSize
 	res.Counters["lock-checks"] = st.LockChecks
 	res.Counters["shrink-calls"] = st.ShrinkCalls
 	res.Counters["resets"] = st.Resets
